@@ -190,7 +190,7 @@ def op_line(op):
 
 
 # ------------------------------------------------------------------------------------------ getfo/get lockstep
-def getfo_case(rng, tmpdir, remote, maxreq, stat_code, open_code, plan, mode):
+def getfo_case(rng, tmpdir, remote, maxreq, stat_code, open_code, plan, mode, reported=None):
     """Real getfo/get (prefetch=False) against the inline server; the read handler follows ``plan``."""
     import paramiko.sftp_file as sf
 
@@ -220,7 +220,18 @@ def getfo_case(rng, tmpdir, remote, maxreq, stat_code, open_code, plan, mode):
             return None
 
         fs.read_fault = rfault
-        fs.stat_fault = (lambda path: stat_code or None)
+        def sfault(path):
+            if stat_code:
+                return stat_code
+            if reported is not None:
+                from paramiko import SFTPAttributes
+
+                a = SFTPAttributes()
+                a.st_size, a.st_mode = reported, 0o100644
+                return a
+            return None
+
+        fs.stat_fault = sfault
         fs.open_fault = (lambda path, flags: open_code or None)
         try:
             if mode == "getfo":
@@ -244,12 +255,13 @@ def getfo_case(rng, tmpdir, remote, maxreq, stat_code, open_code, plan, mode):
 
 
 # ------------------------------------------------------------------------------------------ transfers (threaded)
-def transfer_case(ctx, rng, tmpdir, size, kind, fail_at, code, confirm, use_cb, prefetch, cap, short_seed):
+def transfer_case(ctx, rng, tmpdir, size, kind, fail_at, code, confirm, use_cb, prefetch, cap, short_seed, claimed=None):
     """One put/putfo/get/getfo on the real server loop with one failing chunk.  Returns (desc, failure|None)."""
     data = rng.randbytes(size)
     sess = L.ThreadedSession(L.HashShortReads(short_seed) if short_seed is not None else None)
     desc = {"kind": kind, "size": size, "fail_at": fail_at, "code": code, "confirm": confirm, "callback": use_cb,
-            "prefetch": prefetch, "cap": cap, "short_read_seed": short_seed}
+            "prefetch": prefetch, "cap": cap, "short_read_seed": short_seed,
+            "file_size_claimed": claimed}  # putfo's file_size argument / the size the server's STAT reports
     calls = []
     cb = (lambda a, b: calls.append((a, b))) if use_cb else None
     try:
@@ -257,7 +269,8 @@ def transfer_case(ctx, rng, tmpdir, size, kind, fail_at, code, confirm, use_cb, 
         if kind in ("putfo", "put"):
             fs.write_fault = (lambda path, idx, off, d: code if idx == fail_at else None) if fail_at is not None else None
             if kind == "putfo":
-                fn = lambda: sess.client.putfo(io.BytesIO(data), "/up", len(data), cb, confirm)  # noqa: E731
+                fsz = len(data) if claimed is None else claimed
+                fn = lambda: sess.client.putfo(io.BytesIO(data), "/up", fsz, cb, confirm)  # noqa: E731
             else:
                 lp = os.path.join(tmpdir, "src.bin")
                 with open(lp, "wb") as fh:
@@ -267,6 +280,15 @@ def transfer_case(ctx, rng, tmpdir, size, kind, fail_at, code, confirm, use_cb, 
             got = bytes(fs.files.get("/up", b""))
         else:
             fs.files["/down"] = bytearray(data)
+            if claimed is not None:
+                from paramiko import SFTPAttributes
+
+                def sfault(path, n=claimed):
+                    a = SFTPAttributes()
+                    a.st_size, a.st_mode = n, 0o100644
+                    return a
+
+                fs.stat_fault = sfault
             fs.read_fault = (lambda path, idx, off, ln: code if idx == fail_at else None) if fail_at is not None else None
             if kind == "getfo":
                 sink = io.BytesIO()
@@ -390,10 +412,17 @@ def run(ctx):
             stat_code = rng.choice([0] * 12 + [2, 3, 4])
             open_code = rng.choice([0] * 12 + [2, 3, 4])
             mode = rng.choice(["getfo", "getfo", "get"])
-            res, consumed = getfo_case(rng, tmpdir, remote, maxreq, stat_code, open_code, plan, mode)
+            reported = rng.choice([size, size, 0, max(0, size - 1), rng.randrange(0, size + 1), size + rng.randrange(1, 5000),
+                                   rng.randrange(1, 40)])
+            if gi == 0:  # designed: STAT under-reports the size; the download must still be complete
+                size, maxreq, plan, stat_code, open_code, mode, reported = 40000, 32768, [], 0, 0, "getfo", 5
+                remote = rng.randbytes(size)
+            res, consumed = getfo_case(rng, tmpdir, remote, maxreq, stat_code, open_code, plan, mode, reported)
             case = {"mode": mode, "size": size, "maxreq": maxreq, "stat": stat_code, "open": open_code,
+                    "size_reported_by_stat": reported,
                     "plan": ["%s%d" % o for o in plan], "remote": hx(remote) if size <= 48 else "prng(%d)" % size}
-            ctx.case(("get", mode, hx(remote), maxreq, tuple(plan), stat_code, open_code), consumed["failed"] or size > 0)
+            ctx.case(("get", mode, hx(remote), maxreq, tuple(plan), stat_code, open_code, reported), consumed["failed"] or size > 0)
+            ctx.dist("get:stat-size:" + ("exact" if reported == size else "smaller" if reported < size else "larger"))
             ctx.dist("get:" + res.split(" ")[0].split(":")[0])
             if gi % 60 == 0:
                 ctx.sample({"getfo": case, "result": res[:80]})
@@ -404,8 +433,8 @@ def run(ctx):
                     ctx.fail("%s-returns-ok-with-wrong-bytes" % mode, case, "local bytes differ from the remote file")
                 if consumed["failed"]:
                     ctx.fail("%s-returns-ok-after-failed-read" % mode, case, "a read request failed, yet the call returned")
-            greqs.append("%s %s %d 32768 %d %d %s" % (mode, hx(remote), maxreq, stat_code, open_code,
-                                                      ",".join("%s%d" % o for o in plan) or "-"))
+            greqs.append("%s %s %d 32768 %d %d %s %d" % (mode, hx(remote), maxreq, stat_code, open_code,
+                                                         ",".join("%s%d" % o for o in plan) or "-", reported))
             gwant.append(res)
             gcases.append(case)
         grep = ctx.driver("C29", greqs)
@@ -435,10 +464,20 @@ def run(ctx):
             cap = rng.choice([None, None, 1, 4, 64])
             if kind in ("get", "getfo") and fail_at is not None and short is not None:
                 fail_at = rng.randrange(0, 3 * nchunks + 1)
+            claimed = None
+            if kind != "put" and rng.random() < 0.6:
+                claimed = rng.choice([0, size, max(0, size - 1), rng.randrange(0, size + 1), rng.randrange(0, 70000),
+                                      size + rng.randrange(1, 100000), 1, 32768])
+            if i == 0:  # designed: putfo with a file_size estimate smaller than the stream
+                kind, size, fail_at, claimed, short = "putfo", 100000, None, 40000, None
+            elif i == 1:  # designed: the server's STAT under-reports a file that is being downloaded with prefetch
+                kind, size, fail_at, claimed, short, prefetch = "getfo", 100000, None, 40000, None, True
             desc, failure = transfer_case(ctx, rng, tmpdir, size, kind, fail_at, code, rng.random() < 0.5,
-                                          rng.random() < 0.5, prefetch, cap, short)
+                                          rng.random() < 0.5, prefetch, cap, short, claimed)
             ctx.case(("tr", repr(desc)), fail_at is not None)
             ctx.dist("transfer:%s:%s" % (kind, desc.get("outcome", "?").split(":")[0]))
+            if claimed is not None:
+                ctx.dist("transfer:claimed-size:" + ("exact" if claimed == size else "smaller" if claimed < size else "larger"))
             if i % 40 == 0:
                 ctx.sample({"transfer": desc})
             if failure:
